@@ -166,7 +166,7 @@ def run(ctx):
             ctx.count('scripted-learner-raised')
             ctx.violation('c04-scripted-learner-raises', f'learn_spn raised {type(ex).__name__}: {str(ex)[:160]} under scripted splitters although the '
                                                          f'queue machine returns a circuit for every such script', replay=rep, found_input=False)
-            if ctx.n_new() >= 3:
+            if ctx.n_new(with_input_only=True) >= 3:
                 return
             continue
         ctx.case('scripted', nontrivial_key=hashlib.sha256(json.dumps(s.log).encode()).hexdigest()[:16], sample=dict(kind='scripted', rows=n_rows, cols=n_cols))
@@ -194,7 +194,7 @@ def run(ctx):
                     if L.blur_unknown(lean, txt) != txt:
                         ctx.violation('c04-machine-disagrees', f'learn_spn result differs from the queue machine\n impl : {txt[:300]}\n model: {lean[:300]}',
                                       replay=rep, found_input=False)
-        if ctx.n_new() >= 3:
+        if ctx.n_new(with_input_only=True) >= 3:
             return
     # (ii) built-in row splitter x column splitter x leaf learner
     combos = [(r, c) for r in ROWS for c in COLS]
@@ -223,6 +223,34 @@ def run(ctx):
             validate(ctx, root, nv, rep, f'learn_estimator({rsplit},{csplit},{leaf}) on {fam} data {nr}x{nv}')
             if ctx.n_new() >= 3:
                 return
+    # (ii-b) user-supplied splitters whose cluster labels are not 0..k-1 (any labelling is a legitimate clustering), real leaf learners
+    for k in range(12 if quick else 120):
+        rs = np.random.RandomState(np_seed(ctx.sub_rng('labels', k)))
+        nv = int(rs.randint(2, 6)); nr = int(rs.choice([30, 80, 200]))
+        X = binary_data(rs, nr, nv, fams[k % 4])
+        label_sets = [[1], [1, 3], [-1, 2], [5, 0, 9], [2, 2, 7]][k % 5]
+
+        def rows_fn(data, dists, doms, random_state, **kw):
+            lab = np.array([label_sets[i % len(label_sets)] for i in range(len(data))])
+            rs.shuffle(lab)
+            return lab
+
+        def cols_fn(data, dists, doms, random_state, **kw):
+            m = data.shape[1]
+            return np.array([label_sets[(i * 7) % len(label_sets)] for i in range(m)])
+        rep = dict(kind='c04', learner='learn_spn-custom-labels', data=X.astype(int).tolist(), labels=label_sets)
+        try:
+            root = learn_spn(X, [Bernoulli] * nv, [[0, 1]] * nv, learn_leaf='mle', split_rows=rows_fn, split_cols=cols_fn, min_rows_slice=int(rs.choice([10, 25])),
+                             min_cols_slice=2, random_state=int(rs.randint(1000)), verbose=False)
+        except Exception as ex:
+            ctx.violation('c04-custom-labels-raise', f'learn_spn raised {type(ex).__name__}: {str(ex)[:160]} with splitters that label clusters {label_sets} '
+                                                     f'(any labelling is a legitimate clustering)', replay=rep, found_input=False)
+            continue
+        ctx.case('custom-labels', nontrivial_key=('labels', k), sample=dict(labels=label_sets, shape=[nr, nv]))
+        ctx.count('custom-label-splitters')
+        validate(ctx, root, nv, rep, f'learn_spn with cluster labels {label_sets}')
+        if ctx.n_new() >= 3:
+            return
     # (iii) continuous / categorical / mixed leaves incl. a constant column
     for k in range(8 if quick else 80):
         rs = np.random.RandomState(np_seed(ctx.sub_rng('cont', k)))
